@@ -58,6 +58,10 @@ def render_mpass(a, o):
     for t in lst(kv.get("answers", ""), ","):
         idh, ip, port = t.split("/")
         answering.append("(toN %s, addr_key (mkAddr %s (%s)%%N))" % (cbytes(idh), cbytes(ip), port))
+    others = []
+    for t in lst(kv.get("oanswers", ""), ","):
+        idh, ip, port = t.split("/")
+        others.append("(toN %s, addr_key (mkAddr %s (%s)%%N))" % (cbytes(idh), cbytes(ip), port))
     fans = []
     for t in lst(kv.get("fanswers", ""), ","):
         idh, ip, port = t.split("/")
@@ -79,9 +83,9 @@ def render_mpass(a, o):
                 after.append("(toN %s, %s, (%s)%%N, %s)" % (cbytes(idh), key(k), cls[c], "true" if f == "1" else "false"))
         else:
             return None
-    return "rm_check (rm_cfg (toN %s) %s) (%d)%%Z %s %s %s %s %s %s %s %s" % (
+    return "rm_check (rm_cfg (toN %s) %s) (%d)%%Z %s %s %s %s %s %s %s %s %s" % (
         cbytes(kv["root"]), "true" if kv.get("nosec") == "1" else "false", NOW, "true" if kv.get("booted") == "1" else "false",
-        glist(answering, "(N * (bytes * N))"), glist(fans, "(N * (bytes * N))"), glist(nodes, "node"), glist(classes, "N"),
+        glist(answering, "(N * (bytes * N))"), glist(others, "(N * (bytes * N))"), glist(fans, "(N * (bytes * N))"), glist(nodes, "node"), glist(classes, "N"),
         glist(boot, "rmk"), glist(obs, "rm_obs"), glist(after, "rm_after_entry"))
 
 
